@@ -92,7 +92,7 @@ def deck(m):
         L += ["ALL", "WBHP", "/", "GOPR", "/", "BPR", " 1 1 1 /", "/", "ROIP", " 1 /"]
     L.append("SCHEDULE")
     if has("VFP"):
-        L += ["VFPPROD", " 1 2000 OIL WCT GOR THP ' ' METRIC BHP /", " 100 500 /", " 10 50 /", " 0.1 0.5 /", " 100 200 /", " 0 /",
+        L += ["VFPPROD", " 1 2000 OIL WCT GOR THP ' ' 1* BHP /", " 100 500 /", " 10 50 /", " 0.1 0.5 /", " 100 200 /", " 0 /",
               " 1 1 1 1 100 120 /", " 1 2 1 1 110 130 /", " 2 1 1 1 105 125 /", " 2 2 1 1 115 135 /",
               " 1 1 2 1 100 120 /", " 1 2 2 1 110 130 /", " 2 1 2 1 105 125 /", " 2 2 2 1 115 135 /"]
     if has("WELLS"):
